@@ -175,7 +175,7 @@ func genC16(seed uint64, tier string) Scenario {
 		s.Ctl = append(s.Ctl, []CtlOp{{Wait: genShutdownTrigger(g), Op: g.Pick("register", "getlistener"), Arg: 100}})
 		return wrapRace("life", s)
 	case k < 9:
-		s := genC10(seed, tier).(*ProtoScenario)
+		s := genC10Proto(seed, tier).(*ProtoScenario)
 		s.Prop = "C16"
 		return wrapRace("proto", s)
 	default:
